@@ -39,9 +39,15 @@ def body(name):
     raise ValueError(name)
 
 
-def scripts(a, b):
-    sa = ["proc_init 1 node0 1000", "thread_init 1000", "cpu 0 0", "cpu 1 1", "emitraw OHx " + OHX[1000]] + body(a) \
-        + ["free", "barrier", "barrier", "fini"]
+def scripts(a, b, late=False):
+    head = ["proc_init 1 node0 1000", "thread_init 1000", "cpu 0 0", "cpu 1 1", "emitraw OHx " + OHX[1000]]
+    if late:
+        # the second thread is a late worker: it frees its stream only AFTER the first one has called
+        # ovni_proc_fini (the library accepts that order)
+        sa = head + body(a) + ["free", "barrier", "barrier", "fini", "barrier"]
+        sb = ["barrier", "thread_init 1001", "emitraw OHx " + OHX[1001]] + body(b) + ["barrier", "barrier", "free"]
+        return sa, sb
+    sa = head + body(a) + ["free", "barrier", "barrier", "fini"]
     sb = ["barrier", "thread_init 1001", "emitraw OHx " + OHX[1001]] + body(b) + ["free", "barrier"]
     return sa, sb
 
@@ -88,7 +94,7 @@ def flushed_of(calls, work_obs):
 class Prog:
     def __init__(self, name, mode, a, b, drv, bdir):
         self.name, self.mode, self.drv, self.bdir = name, mode, drv, bdir
-        self.sa, self.sb = scripts(a, b)
+        self.sa, self.sb = scripts(a, b, late=name.endswith("-late"))
 
     def run(self, only=None, inject=None):
         """one run under strace -f; only = tid whose files strace looks at (None: everything)"""
@@ -158,7 +164,7 @@ def run(ck, pid, tier, bdir, drv):
             ck.violation("RtFs2 model violates %s" % r.violated, {"tlc.out": r.out[-20000:]}, sig="rtfs2:model")
     # ---- conformance
     progs = [("mt-small+boundary-tmp", "tmp", "small", "boundary"), ("mt-boundary+one-tmp", "tmp", "boundary", "one"),
-             ("mt-small+small-direct", "direct", "small", "small")]
+             ("mt-small+small-direct", "direct", "small", "small"), ("mt-small+boundary-tmp-late", "tmp", "small", "boundary")]
     if tier == "thorough":
         progs += [("mt-one+boundary-direct", "direct", "one", "boundary"), ("mt-boundary+boundary-tmp", "tmp", "boundary", "boundary")]
     kind = "mt09" if pid == "C09" else "mt"
